@@ -20,7 +20,7 @@ def fam_core(seed, i):
     main, handles = setup_main(rng, cfg, kinds, keep)
     sc["clients"]["main"] = main
     w = {"send": 8, "call": 8, "ping": 5, "yield": 3, "clone": 1, "drop": 1, "stop": 0.5, "downgrade": 0.5, "upgrade": 0.5,
-         "sender": 0.5, "caller": 0.5, "weak_sender": 0.3, "weak_caller": 0.3}
+         "sender": 0.5, "caller": 0.5, "weak_sender": 0.3, "weak_caller": 0.3, "force_send": 1.5}
     scripts = SCRIPTS_CORE
     if rng.random() < 0.12:
         # the actor is polled only when no client can run: the deepest backlog the programs can build (20-30 messages)
@@ -56,7 +56,7 @@ def fam_life(seed, i):
     sc["clients"]["main"] = main
     w = {"send": 4, "call": 4, "ping": 1, "yield": 3, "clone": 2, "drop": 3, "stop": 2, "halt": 1, "try_stop": 1, "try_halt": 1,
          "await": 1.5, "await_ref": 1, "stopped": 2, "running": 1.5, "downgrade": 2, "upgrade": 2.5, "sender": 1, "caller": 1,
-         "weak_sender": 1, "weak_caller": 1, "to_addr": 1, "detach": 0.7, "join": 1.5, "consume": 0.7, "consume_sync": 0.7}
+         "weak_sender": 1, "weak_caller": 1, "to_addr": 1, "detach": 0.7, "join": 1.5, "consume": 0.7, "consume_sync": 0.7, "force_send": 1.5}
     base_scripts = [[], [Y], [eff("ctx_stop")], [Y, eff("ctx_stop")], []]
     w["claim"] = 2
     cnt = [0]
@@ -618,7 +618,7 @@ def fam_mix(seed, i):
     w = {"send": 5, "call": 5, "ping": 1, "yield": 3, "sleep": 2, "clone": 1, "drop": 2, "stop": 1, "halt": 0.4, "try_stop": 0.5, "try_halt": 0.4,
          "await": 0.8, "await_ref": 0.7, "stopped": 1, "running": 0.7, "downgrade": 1, "upgrade": 1.5, "sender": 0.4, "caller": 0.4,
          "weak_sender": 0.4, "weak_caller": 0.4, "to_addr": 0.5, "detach": 0.3, "join": 1, "consume": 0.4, "consume_sync": 0.3,
-         "restart": 1.2, "publish": 1.5, "try_publish": 0.4}
+         "restart": 1.2, "publish": 1.5, "try_publish": 0.4, "force_send": 1}
     if stream:
         w["feed"] = 3
         w["end_stream"] = 0.7
